@@ -44,6 +44,10 @@
      content, `ERename` moves it.  A just-created WAL is `FEmpty` until its 4-byte magic is appended.
      `FBad` = unparsable content (for C13 damage); tails `Torn`/`BadLen` and frames `BadCrc`/`BadDeser`
      are interpreted by `read_all` exactly as WalReader does; C02 itself only produces clean files.
+   * Strict recovery's coverage check (/repo commit b87f300) is in `recover_read`: entries with
+     loaded-snapshot seq < seq <= manifest.latest_snapshot_wal_seq are counted while replaying and must
+     number exactly the difference (`RCoverageGap` otherwise).  On clean histories both seqs coincide
+     (Proofs: `snap_ok`), so the check never fires; it matters for C13 (fallback to an older snapshot).
    * Kill model: `EFsync/EFsyncData/EFsyncDir` do not change the directory (C01 adds power loss).
 
    NOT modelled (stated restriction): legacy `seq_no = 0` entries and every timestamp path (an entry
@@ -374,8 +378,9 @@ Definition covered (sseq : N) (e : entry) : bool :=
 (* compact_old_wal_segments over manifest.wal_segments: (segments_to_keep, segments_to_delete).
    The last listed segment is the active one and is always kept; a listed file that is missing is
    dropped from the list; unreadable or corrupted ones are kept; a segment is scheduled for deletion
-   iff every entry is covered.  (Working tree of /repo: the decisions are all taken first; then, iff
-   something is to be deleted, the PRUNED manifest is saved, and only then the files are unlinked.) *)
+   iff every entry is covered.  (/repo commit b9d4670: the decisions are all taken first; then, iff
+   something is to be deleted, the PRUNED manifest is saved, and only then the files are unlinked;
+   create_snapshot saves the pruned manifest once more at the end.) *)
 Fixpoint compact_segments (d : dir) (sseq : N) (segs : list name) : list name * list name :=
   match segs with
   | [] => ([], [])
